@@ -34,6 +34,8 @@ FAMILIES = [  # heaviest first
     dict(name="core", n=4, fork=100000, depth=(3, 4), paths=(350, 3000), bytes=(24, 24), conc=True),
     dict(name="time", n=4, fork=100000, depth=(2, 3), paths=(60, 500), bytes=(10, 40), conc=False),
     dict(name="psig", n=4, fork=100000, depth=(2, 3), paths=(60, 600), bytes=(30, 140), conc=True),
+    dict(name="bounds", n=4, fork=100000, depth=(2, 3), paths=(0, 400), bytes=(60, 300), conc=False),
+    dict(name="bounds7", n=7, fork=100000, depth=(2, 3), paths=(0, 400), bytes=(40, 200), conc=False),
     dict(name="seven", n=7, fork=100000, depth=(2, 3), paths=(0, 800), bytes=(15, 100), conc=False),
     dict(name="decided", n=4, fork=100000, depth=(2, 3), paths=(0, 800), bytes=(25, 100), conc=True),
     dict(name="envelope", n=4, fork=-1, depth=(2, 3), paths=(0, 600), bytes=(30, 120), conc=False),
